@@ -126,6 +126,8 @@ impl Prop for C05 {
             explicit_gate: true,
             flushes: vec![],
             buffered: false,
+            gate_calls: vec![],
+            trace: false,
             inbound: stream,
             reads,
             writes: vec![],
@@ -217,6 +219,8 @@ impl Prop for C05 {
             explicit_gate: true,
             flushes: vec![],
             buffered: false,
+            gate_calls: vec![],
+            trace: false,
             inbound,
             reads,
             writes,
